@@ -499,3 +499,43 @@ Proof.
 Qed.
 
 End Clauses.
+
+(* ------------------------------------------------------------------ only the declared location is read *)
+(* the part of the request that belongs to the declared location: the query string, the header lines, the
+   route parameters, the fields of the form body (PostForm / MultipartForm.Value, never Request.Form) *)
+Definition own_source (d : decl) (rq : request) : pairs :=
+  match d_in d with
+  | LQuery => r_query rq
+  | LHeader => r_header rq
+  | LPath => r_path rq
+  | LForm => r_form rq
+  end.
+
+Lemma source_get_ok_own d rq rq' : own_source d rq = own_source d rq' ->
+  source_get_ok d rq = source_get_ok d rq'.
+Proof.
+  unfold own_source, source_get_ok. intro H. destruct (d_in d); now rewrite H.
+Qed.
+
+Lemma occurrences_own d rq rq' : own_source d rq = own_source d rq' ->
+  occurrences d rq = occurrences d rq'.
+Proof.
+  unfold own_source, occurrences. intro H. destruct (d_in d); now rewrite H.
+Qed.
+
+(* two requests that agree on the declared location have the same outcome, whatever the other three
+   locations carry (a same-named key in the query string of a form post, in the body of a query request,
+   in a header line or a path segment): code model and specification alike, no hypothesis on the requests *)
+Theorem only_declared_location O d rq rq' valid : own_source d rq = own_source d rq' ->
+  bind_param O d rq valid = bind_param O d rq' valid /\
+  spec_outcome O d rq valid = spec_outcome O d rq' valid.
+Proof.
+  intro H. split.
+  - unfold bind_param, read_value. now rewrite (source_get_ok_own d rq rq' H).
+  - unfold spec_outcome. now rewrite (occurrences_own d rq rq' H).
+Qed.
+
+(* in particular: a formData parameter does not see the query string, a query parameter does not see the form body *)
+Corollary form_ignores_other_locations O d rq q h p valid : d_in d = LForm ->
+  bind_param O d {| r_query := q; r_header := h; r_path := p; r_form := r_form rq |} valid = bind_param O d rq valid.
+Proof. intro Hin. apply only_declared_location. unfold own_source. now rewrite Hin. Qed.
